@@ -102,8 +102,35 @@ def correspondence(ctx, model_ok=True):
                                      "build_b": "%s %s" % (k[0], ",".join(k[1])), "trace_b": c,
                                      "modules": {a: b for a, b in mods.items() if a in src},
                                      "signature": "builds differ: " + (c[0] if c[0] != base[0] else "output"), "failing_input": True})
+    # the boundary inputs of the built-in operations (every index/slice/string-function request of C13: all small strings x every
+    # integer around the length, the special numbers, malformed byte sequences, surrogate and out-of-range code points, escapes):
+    # where an unchecked operation replaces a checked one, the builds part ways exactly on such inputs
+    from props import c13
+    reqs = c13.gen_requests(rng.fork("c13"), False)
+    nstmts = [r["stmt"] for r in reqs] + [s_ for s_, _ in c13.EXTRAS] + [s_ for s_, _ in c13.fresh_result_cases()] + [s_ for s_, _ in c13.escape_cases()]
+    if not ctx.thorough:
+        nstmts = nstmts[::2] + [r["stmt"] for r in reqs if r["op"] == "sfn"]
+    nres = {}
+    for profile, feats in configs(ctx.thorough):
+        try:
+            exe = ctx.build_runner(profile, feats)
+            nres[(profile, feats)] = [progs.canon_step(st) for st in c13.run_statements(exe, nstmts)]
+        except Exception as e:
+            broken.append("native-boundary statements in %s %s: %s" % (profile, ",".join(feats), str(e)[-300:]))
+    nkeys = list(nres)
+    for i, st in enumerate(nstmts):
+        outs = [nres[k][i] for k in nkeys]
+        for k, o in zip(nkeys[1:], outs[1:]):
+            if o != outs[0]:
+                differing += 1
+                failures.append({"what": "two build configurations answer one built-in operation differently", "program": c13.program_of(st), "statement": st,
+                                 "build_a": "%s %s" % (nkeys[0][0], ",".join(nkeys[0][1])), "trace_a": outs[0],
+                                 "build_b": "%s %s" % (k[0], ",".join(k[1])), "trace_b": o, "modules": {},
+                                 "signature": "builds differ on a built-in: " + st.split("(")[1].split(")")[0][:30] if "(" in st else "builds differ on a built-in", "failing_input": True})
+                break
     cov = {
-        "evaluations": len(allp) * len(keys),
+        "native_boundary_statements": len(nstmts),
+        "evaluations": len(allp) * len(keys) + len(nstmts) * len(nkeys),
         "distinct_nontrivial": len(nontrivial),
         "rule": "every program (generated profiles %s + repository scripts) run in build configurations %s; non-trivial = distinct "
                 "program that compiled and ran; traces (printed lines, outcome, error kind and messages) must be identical" % (
